@@ -9,6 +9,7 @@ import (
 	"bytes"
 	"crypto/ed25519"
 	"crypto/sha3"
+	"crypto/sha512"
 	"encoding/binary"
 	"encoding/hex"
 	"fmt"
@@ -41,8 +42,9 @@ type Case struct {
 	Rcp     string `json:"rcp,omitempty"`
 	Msg     string `json:"msg,omitempty"`
 	Timeout int64  `json:"timeout,omitempty"`
-	NowNano int64  `json:"now_nano,omitempty"` // instant the mock clock is set to
-	X       string `json:"x,omitempty"`        // round: integer; skew: now
+	NowNano int64  `json:"now_nano,omitempty"`    // instant the mock clock is set to
+	Relayed bool   `json:"via_relayed,omitempty"` // auth: through p2p updateRemoteRelayerConsumers (limit 0)
+	X       string `json:"x,omitempty"`           // round: integer; skew: now
 	Ts      string `json:"ts,omitempty"`
 	T       string `json:"t,omitempty"`
 	Steps   []Step `json:"steps,omitempty"` // seq: presented in this order to ONE node instance
@@ -62,6 +64,7 @@ type Hs struct {
 // one presentation of a message to the node of a sequence
 type Step struct {
 	Kind    string `json:"kind"`
+	Relayed bool   `json:"via_relayed,omitempty"`
 	Rcp     string `json:"rcp,omitempty"` // receiver id passed to AuthenticateAs; default: the sequence's
 	Msg     string `json:"msg"`
 	Timeout int64  `json:"timeout,omitempty"`
@@ -107,12 +110,23 @@ func floorSec(nano int64) int64 {
 }
 
 // the real AuthenticateAs at a clock whose Unix second is floorSec(nowNano)
-func authAt(node *kernel.Node, rcp crypto.Hash, msg []byte, timeout, nowNano int64) (tok *p2p.AuthToken, err error, now int64) {
+func authAt(node *kernel.Node, rcp crypto.Hash, msg []byte, timeout, nowNano int64, relayed bool, peerId []byte) (tok *p2p.AuthToken, err error, now int64) {
 	want := floorSec(nowNano)
 	for try := 0; try < 20; try++ {
 		kernel.VerifClockSet(nowNano)
 		before := kernel.VerifClockNow().Unix()
-		tok, err = node.AuthenticateAs(rcp, msg, timeout)
+		if relayed {
+			// the relayed-consumer path of p2p: (peer id, token) pairs announced by a relayer
+			h := &recHandle{Node: node}
+			peer := p2p.NewPeer(h, rcp, "mem:1", true)
+			err = p2p.VerifC30UpdateRemoteRelayerConsumers(peer, rcp, append(append([]byte{}, peerId...), msg...))
+			tok = nil
+			if err == nil && len(h.calls) > 0 {
+				tok = h.calls[len(h.calls)-1].tok
+			}
+		} else {
+			tok, err = node.AuthenticateAs(rcp, msg, timeout)
+		}
 		after := kernel.VerifClockNow().Unix()
 		if before == after && before == want {
 			kernel.VerifClockReset()
@@ -138,7 +152,7 @@ func runSeq(c *vh.Ctx, seq Case) {
 		if rcp == "" {
 			rcp = seq.Rcp
 		}
-		cs := Case{Op: "auth", Kind: "seq/" + st.Kind, Net: seq.Net, Rcp: rcp, Msg: st.Msg, Timeout: st.Timeout, NowNano: st.NowNano}
+		cs := Case{Op: "auth", Kind: "seq/" + st.Kind, Net: seq.Net, Rcp: rcp, Msg: st.Msg, Timeout: st.Timeout, NowNano: st.NowNano, Relayed: st.Relayed}
 		full := seq
 		full.Steps = seq.Steps[:i+1]
 		ctx := Case{Op: "seq", Net: seq.Net, Rcp: seq.Rcp, Steps: append(append([]Step{}, accepted...), st)}
@@ -158,10 +172,16 @@ func runSeq(c *vh.Ctx, seq Case) {
 // up to here); modelCase: JSON attached to the model case.  Reports acceptance.
 func stepAuth(c *vh.Ctx, node *kernel.Node, cs Case, failCase Case, modelCase Case) bool {
 	net, rcp, msg := unhex(cs.Net), unhex(cs.Rcp), unhex(cs.Msg)
+	relayed := cs.Relayed && len(msg) == msgLen
+	var relayedId []byte
+	if relayed {
+		cs.Timeout = 0 // what that path passes
+		relayedId = refPeerId(net, msg[40:72])
+	}
 	var tok *p2p.AuthToken
 	var err error
 	var now int64
-	pan, pv := vh.Catch(func() { tok, err, now = authAt(node, hash32(rcp), msg, cs.Timeout, cs.NowNano) })
+	pan, pv := vh.Catch(func() { tok, err, now = authAt(node, hash32(rcp), msg, cs.Timeout, cs.NowNano, relayed, relayedId) })
 	if pan {
 		c.Case("auth/"+cs.Kind, cs.Msg, false, modelCase, "")
 		c.Fail("auth-panic", fmt.Sprintf("AuthenticateAs panicked: %v", pv), failCase)
@@ -171,7 +191,7 @@ func stepAuth(c *vh.Ctx, node *kernel.Node, cs Case, failCase Case, modelCase Ca
 
 	// ---- oracle, from the property text ----
 	okLen := len(msg) == msgLen
-	var okRcp, okSkew, okSelf, okSig bool
+	var okRcp, okSkew, okSelf, okSig, okKey, strictSig bool
 	var ts uint64
 	var id, mh []byte
 	if okLen {
@@ -184,9 +204,15 @@ func stepAuth(c *vh.Ctx, node *kernel.Node, cs Case, failCase Case, modelCase Ca
 		okSelf = !bytes.Equal(id, rcp)
 		h := blake3.Sum256(msg[:73])
 		mh = h[:]
-		okSig = ed25519.Verify(ed25519.PublicKey(msg[40:72]), mh, msg[73:137])
+		// independent of the repository's crypto: key validity and the verification equation with
+		// filippo edwards25519 and the repository's challenge definition, cross-checked with crypto/ed25519
+		okKey, okSig, strictSig = refVerify(msg[40:72], mh, msg[73:137])
+		if okSig && !ed25519.Verify(ed25519.PublicKey(msg[40:72]), mh, msg[73:137]) {
+			c.Note("reference verification and crypto/ed25519 disagree on " + cs.Msg)
+		}
 	}
-	want := okLen && okRcp && okSkew && okSelf && okSig
+	// refusing is demanded only of nothing; accepting is demanded of honestly formed signatures
+	want := okLen && okRcp && okSkew && okSelf && strictSig
 	switch {
 	case accepted && !okLen:
 		c.Fail("accept-bad-length", fmt.Sprintf("message of %d bytes accepted", len(msg)), failCase)
@@ -196,6 +222,8 @@ func stepAuth(c *vh.Ctx, node *kernel.Node, cs Case, failCase Case, modelCase Ca
 		c.Fail("accept-stale", fmt.Sprintf("timestamp %d accepted at %d with timeout %d", ts, now, cs.Timeout), failCase)
 	case accepted && !okSelf:
 		c.Fail("accept-self", "message from the receiver itself accepted", failCase)
+	case accepted && !okKey:
+		c.Fail("accept-invalid-key", "accepted although the key the message names is not the canonical encoding of a point of prime order: nobody holds such a key, a content-independent signature verifies for it", failCase)
 	case accepted && !okSig:
 		c.Fail("accept-unsigned", "accepted although the signature over the 73-byte prefix (time, recipient, key, relayer flag) is not valid for the named key", failCase)
 	case !accepted && want:
@@ -225,8 +253,10 @@ func stepAuth(c *vh.Ctx, node *kernel.Node, cs Case, failCase Case, modelCase Ca
 		var sg crypto.Signature
 		copy(sg[:], msg[73:137])
 		ver = k.Verify(crypto.Hash(hh), sg)
-		if ver != okSig {
-			c.Fail("verify-differs-from-ed25519", "Key.Verify and crypto/ed25519 disagree on this message", failCase)
+		if ver && !okSig {
+			c.Fail("verify-accepts-invalid", "Key.Verify holds although the key is not a canonical prime-order point or the verification equation fails (independent check)", failCase)
+		} else if strictSig && !ver {
+			c.Fail("verify-rejects-valid", "Key.Verify fails on an honestly formed signature of a valid key (independent check)", failCase)
 		}
 	}
 	obs := vh.Err("(N * Z * bool)")
@@ -242,6 +272,313 @@ func stepAuth(c *vh.Ctx, node *kernel.Node, cs Case, failCase Case, modelCase Ca
 	reachedCore := okLen && okRcp && okSkew && okSelf
 	c.Case("auth/"+cs.Kind, fmt.Sprintf("%s|%s|%s|%d|%d", cs.Net, cs.Rcp, cs.Msg, cs.Timeout, now), reachedCore, modelCase, term)
 	return accepted
+}
+
+// ---- independent Ed25519 reference (filippo edwards25519 + the repository's challenge) ------
+
+var (
+	identityPoint = edwards25519.NewIdentityPoint()
+	orderL, _     = new(big.Int).SetString("7237005577332262213973186563042994240857116359379907606001950938285454250989", 10)
+)
+
+func scalarOfBig(v *big.Int) *edwards25519.Scalar {
+	b := make([]byte, 32)
+	new(big.Int).Mod(v, orderL).FillBytes(b)
+	for i, j := 0, 31; i < j; i, j = i+1, j-1 {
+		b[i], b[j] = b[j], b[i]
+	}
+	sc, err := edwards25519.NewScalar().SetCanonicalBytes(b)
+	if err != nil {
+		panic(err)
+	}
+	return sc
+}
+
+// [l]P == identity, computed as (l-1)P + P
+func inPrimeSubgroup(p *edwards25519.Point) bool {
+	q := edwards25519.NewIdentityPoint().ScalarMult(scalarOfBig(new(big.Int).Sub(orderL, big.NewInt(1))), p)
+	q.Add(q, p)
+	return q.Equal(identityPoint) == 1
+}
+
+// canonical encoding of a point of order exactly l
+func refKeyValid(k []byte) (*edwards25519.Point, bool) {
+	p, err := edwards25519.NewIdentityPoint().SetBytes(k)
+	if err != nil {
+		return nil, false
+	}
+	return p, bytes.Equal(p.Bytes(), k) && p.Equal(identityPoint) != 1 && inPrimeSubgroup(p)
+}
+
+// SHA-512(R || A || M) reduced mod l
+func refChallenge(R, A, m []byte) *edwards25519.Scalar {
+	h := sha512.New()
+	h.Write(R)
+	h.Write(A)
+	h.Write(m)
+	k, err := edwards25519.NewScalar().SetUniformBytes(h.Sum(nil))
+	if err != nil {
+		panic(err)
+	}
+	return k
+}
+
+// keyOK: the key is valid; sigOK: additionally S canonical, R canonical and [S]B = R + [k]A;
+// strict: additionally R of order l (an honestly formed signature)
+func refVerify(key, m, sig []byte) (keyOK, sigOK, strict bool) {
+	A, keyOK := refKeyValid(key)
+	if !keyOK {
+		return false, false, false
+	}
+	S, err := edwards25519.NewScalar().SetCanonicalBytes(sig[32:])
+	if err != nil {
+		return true, false, false
+	}
+	R, err := edwards25519.NewIdentityPoint().SetBytes(sig[:32])
+	if err != nil || !bytes.Equal(R.Bytes(), sig[:32]) {
+		return true, false, false
+	}
+	k := refChallenge(sig[:32], key, m)
+	lhs := edwards25519.NewIdentityPoint().ScalarBaseMult(S)
+	rhs := edwards25519.NewIdentityPoint().ScalarMult(k, A)
+	rhs.Add(rhs, R)
+	if lhs.Equal(rhs) != 1 {
+		return true, false, false
+	}
+	return true, true, R.Equal(identityPoint) != 1 && inPrimeSubgroup(R)
+}
+
+// the eight torsion points j*T8 (j = 0..7), T8 of order 8, found by clearing the prime part of
+// points decoded from small y values
+func torsionPoints() []*edwards25519.Point {
+	for y := byte(2); y < 255; y++ {
+		enc := make([]byte, 32)
+		enc[0] = y
+		p, err := edwards25519.NewIdentityPoint().SetBytes(enc)
+		if err != nil {
+			continue
+		}
+		t := edwards25519.NewIdentityPoint().ScalarMult(scalarOfBig(new(big.Int).Sub(orderL, big.NewInt(1))), p)
+		t.Add(t, p) // [l]p: pure torsion
+		t4 := edwards25519.NewIdentityPoint().Add(t, t)
+		t4.Add(t4, t4)
+		if t4.Equal(identityPoint) == 1 {
+			continue // order < 8
+		}
+		out := []*edwards25519.Point{edwards25519.NewIdentityPoint()}
+		for j := 1; j < 8; j++ {
+			out = append(out, edwards25519.NewIdentityPoint().Add(out[j-1], t))
+		}
+		return out
+	}
+	panic("no point of order 8 found")
+}
+
+// encodings that decode to a torsion point without being its canonical encoding:
+// y + p for y in {0, 1}, and the sign bit set on x = 0
+func nonCanonicalTorsion() [][]byte {
+	p := new(big.Int).Sub(new(big.Int).Lsh(big.NewInt(1), 255), big.NewInt(19))
+	le := func(v *big.Int, sign bool) []byte {
+		b := make([]byte, 32)
+		v.FillBytes(b)
+		for i, j := 0, 31; i < j; i, j = i+1, j-1 {
+			b[i], b[j] = b[j], b[i]
+		}
+		if sign {
+			b[31] |= 0x80
+		}
+		return b
+	}
+	one, pm1 := big.NewInt(1), new(big.Int).Sub(p, big.NewInt(1))
+	return [][]byte{
+		le(new(big.Int).Add(p, one), false), le(new(big.Int).Add(p, one), true), // identity as y = p+1
+		le(one, true), le(pm1, true), // x = 0 with the sign bit
+		le(p, false), le(p, true), // y = p (order 4)
+	}
+}
+
+// valid keys that also have a non-canonical encoding y + p (y < 19): none are expected to exist
+func nonCanonicalValidKeys() [][]byte {
+	var out [][]byte
+	p := new(big.Int).Sub(new(big.Int).Lsh(big.NewInt(1), 255), big.NewInt(19))
+	for y := int64(0); y < 19; y++ {
+		for _, sign := range []byte{0, 0x80} {
+			enc := make([]byte, 32)
+			enc[0], enc[31] = byte(y), sign
+			if _, ok := refKeyValid(enc); !ok {
+				continue
+			}
+			b := make([]byte, 32)
+			new(big.Int).Add(p, big.NewInt(y)).FillBytes(b)
+			for i, j := 0, 31; i < j; i, j = i+1, j-1 {
+				b[i], b[j] = b[j], b[i]
+			}
+			b[31] |= sign
+			out = append(out, b)
+		}
+	}
+	return out
+}
+
+// ---- adversarial key / signature algebra ----------------------------------------------------
+
+// every step is presented on the direct and on the relayed path, twice (cold and warm point
+// cache), on one node, after an honest message of the related valid key
+func adversarial(c *vh.Ctx, r *vh.Rand, model bool) Case {
+	net := crypto.Hash(blake3.Sum256(r.Bytes(8)))
+	x, me := newSender(r, net), newSender(r, net)
+	nn := (int64(1_700_000_000)+int64(r.Intn(400_000_000)))*1e9 + 500_000_000
+	now := floorSec(nn)
+	t := int64(p2p.HandshakeTimeout / 1e9)
+	suffix := ""
+	if !model {
+		suffix = "-oracle-only"
+	}
+	seq := Case{Op: "seq", Net: hx(net[:]), Rcp: hx(me.id[:])}
+	add := func(kind string, m []byte) {
+		for rep := 0; rep < 2; rep++ {
+			seq.Steps = append(seq.Steps,
+				Step{Kind: "adv/" + kind + suffix, Msg: hx(m), Timeout: t, NowNano: nn},
+				Step{Kind: "adv/" + kind + "/relayed" + suffix, Msg: hx(m), NowNano: nn, Relayed: true})
+		}
+	}
+	prefix := func(ts uint64, key []byte, flag byte) []byte {
+		d := make([]byte, 8)
+		binary.BigEndian.PutUint64(d, ts)
+		d = append(d, me.id[:]...)
+		d = append(d, key...)
+		return append(d, flag)
+	}
+	hashOf := func(pre []byte) []byte { h := blake3.Sum256(pre); return h[:] }
+	randScalar := func() *edwards25519.Scalar {
+		sc, _ := edwards25519.NewScalar().SetUniformBytes(r.Bytes(64))
+		return sc
+	}
+	kills := func(k *edwards25519.Scalar, T *edwards25519.Point) bool { // [k]T = identity
+		return edwards25519.NewIdentityPoint().ScalarMult(k, T).Equal(identityPoint) == 1
+	}
+	zeroS := make([]byte, 32)
+
+	// honest message of the related valid key first (accepted; its point is in the cache)
+	honest := ownMessage(x, uint64(now), me.id[:], 1, 73)
+	add("honest", honest)
+
+	tors := torsionPoints()
+	type lowKey struct {
+		name string
+		enc  []byte
+		P    *edwards25519.Point
+	}
+	var keys []lowKey
+	for j, T := range tors {
+		keys = append(keys, lowKey{fmt.Sprintf("torsion%d", j), T.Bytes(), T})
+	}
+	for i, enc := range nonCanonicalTorsion() {
+		if P, err := edwards25519.NewIdentityPoint().SetBytes(enc); err == nil {
+			keys = append(keys, lowKey{fmt.Sprintf("torsion-noncanonical%d", i), enc, P})
+		} else {
+			keys = append(keys, lowKey{fmt.Sprintf("undecodable%d", i), enc, nil})
+		}
+	}
+	for _, lk := range keys {
+		flag := byte(r.Intn(2))
+		pre := prefix(uint64(now), lk.enc, flag)
+		mh := hashOf(pre)
+		// (1) R = s*B, S = s: verifies whenever [k]A = identity; grind s
+		var sig []byte
+		for try := 0; try < 200; try++ {
+			sc := randScalar()
+			R := edwards25519.NewIdentityPoint().ScalarBaseMult(sc).Bytes()
+			sig = append(append([]byte{}, R...), sc.Bytes()...)
+			if lk.P == nil || kills(refChallenge(R, lk.enc, mh), lk.P) {
+				break
+			}
+		}
+		add(lk.name+"/R=sB,S=s", append(append([]byte{}, pre...), sig...))
+		// (2) R = identity, S = 0: grind the timestamp inside the window and the flag
+		pre2 := pre
+		for try := 0; try < 200 && lk.P != nil; try++ {
+			pre2 = prefix(uint64(now+int64(r.Range(-9, 9))), lk.enc, byte(r.Intn(256)))
+			if kills(refChallenge(identityPoint.Bytes(), lk.enc, hashOf(pre2)), lk.P) {
+				break
+			}
+		}
+		add(lk.name+"/R=identity,S=0", append(append(append([]byte{}, pre2...), identityPoint.Bytes()...), zeroS...))
+		// (3) R of small order, S = 0: R = -[k]A, solved over the eight torsion points
+		Rs := tors[r.Intn(8)].Bytes()
+		for _, T := range tors {
+			if lk.P == nil {
+				break
+			}
+			kA := edwards25519.NewIdentityPoint().ScalarMult(refChallenge(T.Bytes(), lk.enc, mh), lk.P)
+			if kA.Add(kA, T).Equal(identityPoint) == 1 {
+				Rs = T.Bytes()
+				break
+			}
+		}
+		add(lk.name+"/R=torsion,S=0", append(append(append([]byte{}, pre...), Rs...), zeroS...))
+	}
+
+	// a valid key plus a torsion component: A' = A + T, honest response S = r + k*a, nonce ground
+	// until [k]T = identity, so that the plain verification equation holds for A'
+	A, _ := edwards25519.NewIdentityPoint().SetBytes(x.addr.PublicSpendKey[:])
+	a, err := edwards25519.NewScalar().SetCanonicalBytes(x.addr.PrivateSpendKey[:])
+	if err != nil {
+		panic(err)
+	}
+	for j := 1; j < 8; j++ {
+		Ap := edwards25519.NewIdentityPoint().Add(A, tors[j]).Bytes()
+		pre := prefix(uint64(now), Ap, byte(r.Intn(2)))
+		mh := hashOf(pre)
+		var sig []byte
+		for try := 0; try < 200; try++ {
+			rn := randScalar()
+			R := edwards25519.NewIdentityPoint().ScalarBaseMult(rn).Bytes()
+			k := refChallenge(R, Ap, mh)
+			S := edwards25519.NewScalar().MultiplyAdd(k, a, rn)
+			sig = append(append([]byte{}, R...), S.Bytes()...)
+			if kills(k, tors[j]) {
+				break
+			}
+		}
+		add(fmt.Sprintf("valid+torsion%d", j), append(append([]byte{}, pre...), sig...))
+	}
+	for i, enc := range nonCanonicalValidKeys() {
+		m := append([]byte{}, honest...)
+		copy(m[40:72], enc)
+		add(fmt.Sprintf("valid-noncanonical%d", i), m)
+	}
+	// S non-canonical: S + l of an honest signature
+	{
+		m := append([]byte{}, honest...)
+		S := new(big.Int).Add(leToBig(m[105:137]), orderL)
+		b := make([]byte, 32)
+		S.FillBytes(b)
+		for i, j := 0, 31; i < j; i, j = i+1, j-1 {
+			b[i], b[j] = b[j], b[i]
+		}
+		copy(m[105:137], b)
+		add("S+l", m)
+	}
+	// nonce 0: R = identity, S = k*a (the equation holds; no demand either way) and R of small order
+	{
+		pre := prefix(uint64(now), x.addr.PublicSpendKey[:], 0)
+		k := refChallenge(identityPoint.Bytes(), x.addr.PublicSpendKey[:], hashOf(pre))
+		S := edwards25519.NewScalar().Multiply(k, a)
+		add("valid-key/R=identity,S=ka", append(append(append([]byte{}, pre...), identityPoint.Bytes()...), S.Bytes()...))
+		add("valid-key/R=torsion,S=ka", append(append(append([]byte{}, pre...), tors[r.Range(1, 7)].Bytes()...), S.Bytes()...))
+		add("valid-key/R=identity,S=0", append(append(append([]byte{}, pre...), identityPoint.Bytes()...), zeroS...))
+	}
+	add("honest-again", honest)
+	return seq
+}
+
+func leToBig(b []byte) *big.Int {
+	rv := make([]byte, len(b))
+	for i := range b {
+		rv[len(b)-1-i] = b[i]
+	}
+	return new(big.Int).SetBytes(rv)
 }
 
 // ---- the callers of AuthenticateAs (p2p) ------------------------------------------------
@@ -889,7 +1226,7 @@ func main() {
 		"sub-second offsets), timeouts (handshake value, 0, negative, tiny, huge), timestamps at the window boundary ±2 s; messages from the real " +
 		"BuildAuthenticationMessage and from a builder written from the property text; per scenario one structured variant (wrong length, other " +
 		"recipient, self, foreign signature, flag outside the signed bytes, flag value, other network, extreme timestamp, clock at the boundary, replay, " +
-		"random bytes/key); SEQUENCES presented to one and the same node instance: a genuine message accepted (1-4 times), then its field tampers (flag, flag value, timestamp, refreshed timestamp after expiry, recipient, key; key and signature bytes kept) and all 137 single-byte mutations, interleaved with genuine messages of other peers and repeats, and as control the same tampers BEFORE the genuine one on a fresh node; every step judged by the same stateless oracle and sent to the stateless model. CALLERS: the real p2p authenticateNeighbor (in-memory client delivering the message 0/0.5/1.9/2.1/2.9 s into the handshake; messages fresh, 11 s and 1 h old) and updateRemoteRelayerConsumers with a recording SyncHandle around the real kernel AuthenticateAs: the skew limit passed must be the handshake timeout on the neighbor path, 0 only on the relayed-consumer path, and no stale message is accepted. float64 model: integer " +
+		"random bytes/key); SEQUENCES presented to one and the same node instance: a genuine message accepted (1-4 times), then its field tampers (flag, flag value, timestamp, refreshed timestamp after expiry, recipient, key; key and signature bytes kept) and all 137 single-byte mutations, interleaved with genuine messages of other peers and repeats, and as control the same tampers BEFORE the genuine one on a fresh node; every step judged by the same stateless oracle and sent to the stateless model. ADVERSARIAL KEYS AND SIGNATURES with validity known independently (filippo edwards25519 + the repository's challenge): messages naming each of the 8 torsion points and their non-canonical encodings as the key, a valid key plus a torsion component, with signatures R=s*B,S=s / R=identity,S=0 / R of small order (nonces, timestamps ground so the plain verification equation holds), S+l, nonce 0; each on the direct and the relayed-consumer path, twice, after an honest message of the related key. CALLERS: the real p2p authenticateNeighbor (in-memory client delivering the message 0/0.5/1.9/2.1/2.9 s into the handshake; messages fresh, 11 s and 1 h old) and updateRemoteRelayerConsumers with a recording SyncHandle around the real kernel AuthenticateAs: the skew limit passed must be the handshake timeout on the neighbor path, 0 only on the relayed-consumer path, and no stale message is accepted. float64 model: integer " +
 		"conversions around 2^53..2^64 and skew tests over the full uint64 range. Non-trivial = length, recipient, freshness and not-self hold so the " +
 		"signature check decides; distinct by (network, recipient, message, timeout, clock second)."
 	if c.Replay != "" {
@@ -900,6 +1237,10 @@ func main() {
 		return
 	}
 	corpus(c)
+	run(c, adversarial(c, vh.NewRand(30, "C30-corpus-adversarial"), true)) // fixed stream: part of the corpus
+	for i := c.Scale(2, 40); i > 0; i-- {
+		run(c, adversarial(c, c.Rng, false))
+	}
 	run(c, Case{Op: "callsites"})
 	for i := c.Scale(1, 4); i > 0; i-- { // real sleeps: all handshakes of a case run at the same time (~3 s per case)
 		run(c, handshakeCase(c.Rng, true))
